@@ -26,16 +26,19 @@ type adapter struct {
 	nt    int
 	seq   int
 	confs [][2]int
+	// a step of the current behaviour ended in a panic (an expired wait is recorded that way): the node is in an unknown state
+	wedged bool
 }
 
 func (a *adapter) Reset(init map[string]tla.Value) (engine.Fields, error) {
 	if a.wd == nil {
 		a.wd = newWorld("sync", maxSegment)
 	}
-	if a.n != nil {
-		a.n.stop()
+	if old := a.n; old != nil {
 		a.n = nil
+		old.retire(a.wedged)
 	}
+	a.wedged = false
 	// the universe of this behaviour is read off the initial state: inflight's domain
 	a.nb, a.nt, a.confs = 0, 0, nil
 	infl := init["inflight"]
@@ -71,7 +74,7 @@ func (a *adapter) Reset(init map[string]tla.Value) (engine.Fields, error) {
 	for _, c := range a.confs {
 		confs = append(confs, []int{c[0], c[1]})
 	}
-	fl := engine.Fields{"nb": a.nb, "nt": a.nt, "confs": confs, "miners": miners, "nd": nDeputies, "ref_cur": ref[0], "ref_stable": ref[1]}
+	fl := engine.Fields{"peer_dropped": false, "nb": a.nb, "nt": a.nt, "confs": confs, "miners": miners, "nd": nDeputies, "ref_cur": ref[0], "ref_stable": ref[1]}
 	a.project(fl, 0)
 	return fl, nil
 }
@@ -173,13 +176,9 @@ func (a *adapter) raceInsert(h, d int) string {
 	n.cw.hold(b.Hash())
 	defer n.cw.release()
 	from := n.r.mark()
-	n.peer.push(p2p.BlocksMsg, enc(types.Blocks{node.Copy(b, nil)}))
-	n.peer.push(p2p.BlocksMsg, enc(types.Blocks{node.Copy(a.wd.blocks[0], nil)})) // marker, see deliverBlock
-	loopDone := func(evs []ev) bool {
-		return count(evs, from, func(e ev) bool { return e.kind == "StableBlock" && e.caller == fromRcvLoop }) >= 2
-	}
+	loopDone := n.pushBlocks([]*types.Block{b}, a.wd.blocks[0])
 	held := false
-	n.r.wait(fmt.Sprintf("block %d to enter InsertBlock", h), func(evs []ev) bool {
+	n.waitPeer(fmt.Sprintf("block %d to enter InsertBlock", h), func(evs []ev) bool {
 		held = count(evs, from, func(e ev) bool { return e.kind == "InsertBlock.begin" && e.hash == b.Hash() }) >= 1
 		return held || loopDone(evs)
 	})
@@ -188,7 +187,9 @@ func (a *adapter) raceInsert(h, d int) string {
 		path = "noinsert+" + path
 	}
 	n.cw.release()
-	n.r.wait("the receive loop to finish the held block and the marker behind it", loopDone)
+	if !n.takeDroppedPeek() { // (if the session was closed meanwhile the marker is gone with it; the held block is with the loop already)
+		n.waitPeer("the receive loop to finish the held block and the marker behind it", loopDone)
+	}
 	return path
 }
 
@@ -233,11 +234,29 @@ func (a *adapter) deliverTxs() int {
 	return valid
 }
 
-func (a *adapter) Apply(s engine.Step) (engine.Fields, error) {
-	fl := engine.Fields{}
+func (a *adapter) Apply(s engine.Step) (fl engine.Fields, err error) {
+	defer func() {
+		if r := recover(); r != nil {
+			a.wedged = true
+			panic(r)
+		}
+	}()
+	fl = engine.Fields{}
 	n := a.n
 	from := n.r.mark()
 	switch s.Act.Name {
+	case "DeliverBatch":
+		// one BlocksMsg with several blocks, in the order the model names them (an answer to a block request that overlaps
+		// what the node already holds, a repeated answer, ...)
+		var bs []*types.Block
+		for _, h := range s.Act.Args[0].Ints() {
+			if h < 1 || h > a.nb {
+				return nil, fmt.Errorf("batch names block %d outside the segment", h)
+			}
+			bs = append(bs, a.wd.blocks[h])
+		}
+		n.deliverBlocks(bs, a.wd.blocks[0], "the batch "+s.Act.Args[0].String())
+		n.fence()
 	case "Deliver":
 		m := s.Act.Args[0]
 		switch m.At(0).S() {
@@ -262,6 +281,8 @@ func (a *adapter) Apply(s engine.Step) (engine.Fields, error) {
 		return nil, fmt.Errorf("unknown action %s", s.Act.Name)
 	}
 	a.snapshot(fl, from, s.Act.String())
+	// the manager closed the session of the peer during this step (a fresh session was opened for the steps that follow)
+	fl["peer_dropped"] = n.takeDropped()
 	return fl, nil
 }
 
@@ -270,7 +291,8 @@ func (a *adapter) Apply(s engine.Step) (engine.Fields, error) {
 // so that every logged state is a consistent one.
 func (a *adapter) snapshot(fl engine.Fields, from int, what string) {
 	n := a.n
-	deadline := time.Now().Add(waitLimit)
+	limit := limitNow()
+	deadline := time.Now().Add(limit)
 	for {
 		n.waitSettled(what)
 		n.waitStableCleared(n.bc.StableBlock().Height())
@@ -287,7 +309,7 @@ func (a *adapter) snapshot(fl engine.Fields, from int, what string) {
 			return
 		}
 		if time.Now().After(deadline) {
-			engine.Failf("sync harness: no quiet moment to read the node state within %v after %s", waitLimit, what)
+			expired("the node did not come to rest within %v after %s (the manager keeps calling into the chain / pool / peer)", limit, what)
 		}
 	}
 }
@@ -295,6 +317,7 @@ func (a *adapter) snapshot(fl engine.Fields, from int, what string) {
 func (a *adapter) Close() {
 	if a.n != nil {
 		a.n.stop()
+		a.n = nil
 	}
 	if a.wd != nil {
 		a.wd.close()
